@@ -244,7 +244,23 @@ func (config *Config) write(writeProperties bool) {
 		panic(err)
 	}
 	data = append(data, '\n')
-	err = os.WriteFile(config.path, data, 0600)
+	// Write a new file and move it into place: truncating the file in place
+	// leaves it empty when the process is killed at that moment, and an empty
+	// config file means no password, not read-only and not a follower.
+	tmp := config.path + ".tmp"
+	f, err := os.OpenFile(tmp, os.O_WRONLY|os.O_CREATE|os.O_TRUNC, 0600)
+	if err != nil {
+		panic(err)
+	}
+	if _, err = f.Write(data); err == nil {
+		err = f.Sync()
+	}
+	if cerr := f.Close(); err == nil {
+		err = cerr
+	}
+	if err == nil {
+		err = os.Rename(tmp, config.path)
+	}
 	if err != nil {
 		panic(err)
 	}
